@@ -72,7 +72,7 @@ theorem tupleArr_text (wrap : List TVal → TVal) (ss : List Schema) (f t : Nat)
     simp only at hloop
     simp only [FromValue.visitArray]
     intro x r p
-    exact closeWith_not_ok _ (map_not_ok hloop) x r p
+    exact closeWith_seq_bad (map_bad hloop) x r p
   | ok pr =>
     obtain ⟨ys, rem⟩ := pr
     rw [hall] at hloop
@@ -118,13 +118,23 @@ theorem parseStr_key (k tl : Bytes) (hu : Spec.Utf8.validUtf8 k = true) (pos : N
   congr 1
   omega
 
+theorem structLoop_bad (de : Schema → Bytes → Nat → TOut) (fs : List (Bytes × Schema)) (deny : Bool) {r : Bytes} (h : BadHead r) :
+    ∀ (n : Nat) (slots : List (Option TVal)) (pos : Nat) a r' p', structLoop env de fs deny n false slots r pos ≠ .ok a r' p' := by
+  intro n
+  cases n with
+  | zero => intro slots pos a r' p'; simp [structLoop]
+  | succ n =>
+    intro slots pos
+    unfold structLoop
+    exact bind_not_ok (hasNextKey_bad h pos)
+
 include hext hflt hap in
 /-- derive's struct `visit_map` loop over a printed object, against `structMapLoop` with `fieldDe` -/
 theorem structLoop_text (f t : Nat) (fs : List (Bytes × Schema)) (deny : Bool) :
     ∀ (kvs : List (Bytes × JV)),
       (∀ kv ∈ kvs, Spec.Utf8.validUtf8 kv.1 = true ∧ shapeW kv.2 = true ∧
         ∀ i nm s, FromValue.nameIndex (fieldNames fs) kv.1 = some i → fs[i]? = some (nm, s) →
-          Agree1 (deTyped env f t s) (FromValue.fromValue cfg' ext' s kv.2) (T ext kv.2)) →
+          Agree1w (deTyped env f t s) (FromValue.fromValue cfg' ext' s kv.2) (T ext kv.2)) →
     ∀ (first : Bool) (slots : List (Option TVal)) (n : Nat) (rest : Bytes) (pos : Nat),
       (Tm ext first kvs ++ 0x7d :: rest).length < n →
       match FromValue.structMapLoop (FromValue.fieldDe cfg' ext' fs) deny kvs slots with
@@ -185,7 +195,7 @@ theorem structLoop_text (f t : Nat) (fs : List (Bytes × Schema)) (deny : Bool) 
           | error e =>
             rw [hfx] at hel
             simp only at hel ⊢
-            exact bind_not_ok hel
+            exact bind_bad hel fun v r1 p1 hb => structLoop_bad _ fs deny hb n _ p1
           | ok y =>
             rw [hfx] at hel
             simp only at hel ⊢
@@ -228,7 +238,7 @@ include hext hflt hap in
 theorem agree_struct (fs : List (Bytes × Schema)) (deny : Bool) (f t : Nat) (v : JV) (hv : VOK v) (hd : DepthOK env t v)
     (iha : ∀ xs, v = .arr xs → TupAgree ext (deTyped env f (t + 1)) (FromValue.fromValue cfg' ext') (fs.map (·.2)) xs)
     (iho : ∀ kvs, v = .obj kvs → ∀ kv ∈ kvs, ∀ i nm s, FromValue.nameIndex (fieldNames fs) kv.1 = some i → fs[i]? = some (nm, s) →
-      Agree1 (deTyped env f (t + 1) s) (FromValue.fromValue cfg' ext' s kv.2) (T ext kv.2)) :
+      Agree1w (deTyped env f (t + 1) s) (FromValue.fromValue cfg' ext' s kv.2) (T ext kv.2)) :
     Agree1 (deTyped env (f + 1) t (.struct_ fs deny)) (FromValue.fromValue cfg' ext' (.struct_ fs deny) v) (T ext v) := by
   intro rest pos hs
   obtain ⟨c, tl, hT, hc⟩ := T_head ext hext v hv
@@ -252,7 +262,7 @@ theorem agree_struct (fs : List (Bytes × Schema)) (deny : Bool) (f t : Nat) (v 
   | obj kvs =>
     have hel : ∀ kv ∈ kvs, Spec.Utf8.validUtf8 kv.1 = true ∧ shapeW kv.2 = true ∧
         ∀ i nm s, FromValue.nameIndex (fieldNames fs) kv.1 = some i → fs[i]? = some (nm, s) →
-          Agree1 (deTyped env f (t + 1) s) (FromValue.fromValue cfg' ext' s kv.2) (T ext kv.2) :=
+          Agree1w (deTyped env f (t + 1) s) (FromValue.fromValue cfg' ext' s kv.2) (T ext kv.2) :=
       fun kv hx => ⟨(vok_member kvs kv hx hv).1, (vok_member kvs kv hx hv).2, fun i nm s h1 h2 => iho kvs rfl kv hx i nm s h1 h2⟩
     have hloop := structLoop_text ext hext hflt cfg' hap ext' f (t + 1) fs deny kvs hel true (fs.map fun _ => none)
       ((Tmembers ext kvs ++ 0x7d :: rest).length + 1) rest (pos + 1) (by simp [Tm])
